@@ -283,8 +283,79 @@ pub fn run(thorough: bool) -> Report {
             }
         }
     }
+    // Texts the search above does not afford: statement texts that begin with a word the command
+    // processor knows (as a variable name: the line is an edit like any other), and texts with a
+    // carriage return inside (a blank between tokens, a character of a literal or of a remark).
+    // Each is entered between two other lines, typed and loaded as a file, then deleted.
+    let mut special = 0u64;
+    {
+        let mut texts: Vec<String> = vec![];
+        for w in ["RUN", "LIST", "NEW", "CONT", "TRACE", "NOTRACE", "INTERNALS", "STATS"] {
+            texts.push(format!(" {} = 7", w));
+            texts.push(format!(" {} = 3: PRINT {}", w.to_lowercase(), w));
+            texts.push(format!("{}=1", w));
+        }
+        for t in [" PRINT 1\r+ 2", " PRINT \"A\rB\"", " REM x\ry", " DATA p\rq, 2", " X = 1:\r Y = 2"] {
+            texts.push(t.to_string());
+        }
+        for num in ["20", " 20", "18446744073709551615"] {
+            for t in &texts {
+                special += 1;
+                let lines = vec!["10 PRINT \"a\";".to_string(), format!("{}{}", num, t), "30 PRINT \"c\";".to_string()];
+                let key: u64 = num.trim().parse().unwrap();
+                let mut hist: Vec<Ev> = vec![];
+                let mut s = Sess::new();
+                let mut problem: Option<String> = None;
+                for l in &lines {
+                    let e = Ev::Line(l.clone());
+                    let r = s.apply(&e);
+                    hist.push(e);
+                    if r != CallResult::Ok || s.state() != abasic_core::InterpreterState::Idle || !s.recs.is_empty() {
+                        problem = Some(format!("entering {:?} gave {:?}, state {:?}, output {:?}", l, r, s.state(), s.recs));
+                        break;
+                    }
+                }
+                if problem.is_none() {
+                    let mut want = vec![10u64, key, 30];
+                    want.sort();
+                    let snap = s.it.verif_snapshot();
+                    if snap.sorted_index_keys != want {
+                        problem = Some(format!("stored keys {:?}, expected {:?}", snap.sorted_index_keys, want));
+                    } else {
+                        let text = lines.join("\n");
+                        match guarded(move || abasic_core::SourceFileAnalyzer::analyze(text).into_interpreter()) {
+                            Ok(it) => {
+                                let loaded = Sess::from_interpreter(it).it.verif_snapshot().lines;
+                                if loaded != snap.lines {
+                                    problem = Some(format!("typed: {:?}; the same lines loaded as a file: {:?}", snap.lines, loaded));
+                                }
+                            }
+                            Err(p) => problem = Some(format!("loading the lines as a file panicked: {}", p)),
+                        }
+                    }
+                }
+                if problem.is_none() {
+                    let e = Ev::Line(num.to_string());
+                    let r = s.apply(&e);
+                    hist.push(e);
+                    let keys = s.it.verif_snapshot().sorted_index_keys;
+                    if r != CallResult::Ok || keys != vec![10, 30] {
+                        problem = Some(format!("deleting line {} gave {:?}, keys {:?}", key, r, keys));
+                    }
+                }
+                if let Some(p) = problem {
+                    rep.add(Violation {
+                        signature: format!("special text {:?}: not an ordinary edit", t.chars().take(24).collect::<String>()),
+                        detail: p,
+                        case: case_history(&hist, false, false),
+                    });
+                }
+            }
+        }
+    }
     let mut cov = stats_json(&stats);
     if let serde_json::Value::Object(m) = &mut cov {
+        m.insert("special_texts_entered_typed_and_loaded".into(), json!(special));
         m.insert("states".into(), json!(stats.states));
         m.insert("transitions".into(), json!(stats.transitions + unrolled));
         m.insert("traces_validated_against_impl".into(), json!(stats.transitions + unrolled));
